@@ -8,6 +8,8 @@
 //   cli run  --cfg C --seed S --start A --stride W --count N [--twice] [--secs T] [--samples]
 //   cli exec --replay FILE [--log]
 #include <link.h>
+#include <fcntl.h>
+#include <cstdarg>
 #include <pthread.h>
 #include <cstdio>
 #include <cstdlib>
@@ -72,6 +74,7 @@ struct Op {
     string name;                // FILE: the operand as the user typed it (empty: "sim:<n>"); made unique per invocation by the harness
     int fkind = 0;              // FILE: what fstat() says - 0 regular file (st_size = length), 1 FIFO/pipe (st_size = 0)
     string of_kind; long long of_at = -1; int of_errno = 0;                        // INVOKE: stdout fault
+    int nostdin = 0;            // INVOKE: the tool was started with standard input closed (cron, daemons, `<&-`): the first descriptor it opens is 0
     int tty = 0;                // INVOKE: bit 0 = stdout is a terminal, bit 1 = stderr is a terminal (what isatty() says)
     int usage = 0;              // INVOKE: 1 = "-h", 2 = "--help" as first argument (files follow); an invocation without files is the usage path too
     int loc = 0;                // INVOKE: the user's locale (the tool calls setlocale(LC_ALL, "")): 0 C, 1 C.UTF-8, 2 a single-byte locale
@@ -92,6 +95,7 @@ static sj::Value op_to_json(const Op &op) {
     if (op.k == "INVOKE" && op.loc) j.set("loc", op.loc);
     if (op.k == "INVOKE" && op.usage) j.set("usage", op.usage);
     if (op.k == "INVOKE" && op.tty) j.set("tty", op.tty);
+    if (op.k == "INVOKE" && op.nostdin) j.set("nostdin", op.nostdin);
     if (op.k == "INVOKE" && !op.of_kind.empty()) { sj::Value f = sj::Value::object(); f.set("kind", op.of_kind); f.set("at", op.of_at); f.set("errno", op.of_errno); j.set("of", f); }
     return j;
 }
@@ -108,7 +112,7 @@ static Plan plan_from_json(const sj::Value &j) {
     if (ops) for (auto &e : ops->a) {
         Op op; op.k = e.gets("k");
         if (op.k != "INVOKE" && op.k != "FILE" && op.k != "LINE") continue;
-        op.s = e.gets("s"); op.t = (int)e.geti("t"); op.fkind = (int)e.geti("kind"); op.loc = (int)e.geti("loc"); op.usage = (int)e.geti("usage"); op.tty = (int)e.geti("tty"); op.name = e.gets("name"); if (op.name.find('\0') != string::npos) op.name = op.name.substr(0, op.name.find('\0'));
+        op.s = e.gets("s"); op.t = (int)e.geti("t"); op.fkind = (int)e.geti("kind"); op.loc = (int)e.geti("loc"); op.usage = (int)e.geti("usage"); op.tty = (int)e.geti("tty"); op.nostdin = (int)e.geti("nostdin"); op.name = e.gets("name"); if (op.name.find('\0') != string::npos) op.name = op.name.substr(0, op.name.find('\0'));
         const sj::Value *c = e.get("chunks"); if (c) for (auto &x : c->a) op.chunks.push_back(x.i < 1 ? 1 : x.i);
         const sj::Value *f = e.get("ff");
         if (f && f->kind == sj::Value::Obj) { op.ff_kind = f->gets("kind"); op.ff_errno = (int)f->geti("errno"); op.ff_at = f->geti("at", -1); op.ff_transient = (int)f->geti("transient"); }
@@ -121,11 +125,11 @@ static Plan plan_from_json(const sj::Value &j) {
 
 // structured view of a plan (ops interpreted modulo structure: any subsequence is legal)
 struct SFile { string name; int fkind = 0; string data; vector<long long> chunks; string ff_kind; int ff_errno = 0; long long ff_at = -1; int ff_transient = 0; int nlines = 0; };
-struct SInv { vector<SFile> files; string of_kind; long long of_at = -1; int of_errno = 0; int loc = 0; int usage = 0; int tty = 0; };
+struct SInv { vector<SFile> files; string of_kind; long long of_at = -1; int of_errno = 0; int loc = 0; int usage = 0; int tty = 0; int nostdin = 0; };
 static vector<SInv> structure(const Plan &p) {
     vector<SInv> inv;
     for (auto &op : p.ops) {
-        if (op.k == "INVOKE") { SInv i; i.of_kind = op.of_kind; i.of_at = op.of_at; i.of_errno = op.of_errno; i.loc = op.loc; i.usage = op.usage; i.tty = op.tty; inv.push_back(i); }
+        if (op.k == "INVOKE") { SInv i; i.of_kind = op.of_kind; i.of_at = op.of_at; i.of_errno = op.of_errno; i.loc = op.loc; i.usage = op.usage; i.tty = op.tty; i.nostdin = op.nostdin; inv.push_back(i); }
         else if (op.k == "FILE") {
             if (inv.empty()) inv.push_back(SInv());
             SFile f; f.fkind = op.fkind; f.name = op.name; f.chunks = op.chunks; f.ff_kind = op.ff_kind; f.ff_errno = op.ff_errno; f.ff_at = op.ff_at; f.ff_transient = op.ff_transient;
@@ -148,12 +152,13 @@ struct FileState {
     const SFile *f = nullptr; size_t pos = 0; size_t chunk_i = 0; bool failed_once = false; bool eof_reported = false;
     long reads = 0, reads_after_eof = 0, short_reads = 0; bool fault_fired = false; bool opened = false; bool closed = false;
     size_t out_begin = 0, out_end = 0; bool out_marked = false;
-    FILE *fp = nullptr;
+    FILE *fp = nullptr; int fd = -1;       // the descriptor the simulated file was opened on
 };
 struct Sim {
     const SInv *inv = nullptr;
     vector<FileState> fs;
     vector<string> names;       // the operands of this invocation, by file index
+    std::map<int, int> fdmap;   // simulated descriptor -> file index
     char *tool_buf = nullptr; size_t tool_buf_size = 0; bool tool_buf_heap = false;      // a buffer the tool itself gave to stdout / stderr with setvbuf()
     string out, err;            // captured stdout / stderr of the tool
     long long out_written = 0; bool of_fired = false; long out_calls = 0;
@@ -195,37 +200,84 @@ static ssize_t rd_cb(void *c, char *buf, size_t size) {
 }
 static int cl_cb(void *c) {
     Cookie *ck = (Cookie *)c; S->in_harness++;
-    FileState &st = S->fs[ck->idx]; st.closed = true;
+    FileState &st = S->fs[ck->idx]; st.closed = true; if (st.fd >= 0) S->fdmap.erase(st.fd);
     fflush(stdout); st.out_end = S->out.size();
     delete ck; S->in_harness--; return 0;
 }
 
+// the descriptor a newly opened simulated file gets: POSIX hands out the lowest free one, which is 0 when the tool was started
+// with standard input closed; otherwise a number of the simulator's own (what a correct program does with it is the same)
+static int sim_alloc_fd(int idx) {
+    if (S->inv && S->inv->nostdin && !S->fdmap.count(0)) return 0;
+    return 1000 + idx;
+}
+static int sim_lookup(const char *path) { if (S && path) for (size_t i = 0; i < S->names.size(); i++) if (S->names[i] == path) return (int)i; return -1; }
+// open by name: fault or descriptor (-1 with errno set)
+static int sim_open_idx(int idx) {
+    FileState &st = S->fs[idx];
+    S->fopen_calls++;
+    fflush(stdout);                     // file boundary in the captured output
+    st.out_begin = S->out.size(); st.out_marked = true; st.out_end = st.out_begin;
+    if (st.f->ff_kind == "open") { st.fault_fired = true; S->fopen_faults++; errno = st.f->ff_errno ? st.f->ff_errno : ENOENT; return -1; }
+    st.opened = true; st.closed = false; st.fd = sim_alloc_fd(idx); S->fdmap[st.fd] = idx;
+    return st.fd;
+}
+static FILE *sim_stream_for(int idx) {
+    FileState &st = S->fs[idx];
+    cookie_io_functions_t io = { rd_cb, nullptr, nullptr, cl_cb };
+    S->in_harness--;                // FILE + stream buffer belong to the tool's run (freed by fclose)
+    FILE *r = fopencookie(new Cookie{ idx }, "r", io);
+    S->in_harness++;
+    st.fp = r;
+    return r;
+}
 extern "C" FILE *__wrap_fopen(const char *path, const char *mode) {
-    int idx_by_name = -1;
-    if (S) for (size_t i = 0; i < S->names.size(); i++) if (S->names[i] == path) { idx_by_name = (int)i; break; }
-    if (S && idx_by_name >= 0) {
+    int idx = sim_lookup(path);
+    if (S && idx >= 0) {
         S->in_harness++;
-        int idx = idx_by_name;
-        S->fopen_calls++;
         FILE *r = nullptr;
-        if (idx >= 0 && idx < (int)S->fs.size()) {
-            FileState &st = S->fs[idx];
-            fflush(stdout);                     // file boundary in the captured output
-            st.out_begin = S->out.size(); st.out_marked = true; st.out_end = st.out_begin;
-            if (st.f->ff_kind == "open") { st.fault_fired = true; S->fopen_faults++; errno = st.f->ff_errno ? st.f->ff_errno : ENOENT; }
-            else {
-                st.opened = true;
-                cookie_io_functions_t io = { rd_cb, nullptr, nullptr, cl_cb };
-                S->in_harness--;                // FILE + stream buffer belong to the tool's run (freed by fclose)
-                r = fopencookie(new Cookie{ idx }, "r", io);
-                S->in_harness++;
-                st.fp = r;
-            }
-        } else errno = ENOENT;
+        if (sim_open_idx(idx) >= 0) r = sim_stream_for(idx);
         S->in_harness--;
         return r;
     }
     return __real_fopen(path, mode);
+}
+// the same files through the descriptor interface: open / fdopen / read / close / posix_fadvise
+extern "C" int __real_open(const char *path, int flags, ...);
+extern "C" int __wrap_open(const char *path, int flags, ...) {
+    int idx = sim_lookup(path);
+    if (S && idx >= 0 && !S->in_harness) { S->in_harness++; int fd = sim_open_idx(idx); S->in_harness--; return fd; }
+    mode_t m = 0; if (flags & O_CREAT) { va_list ap; va_start(ap, flags); m = (mode_t)va_arg(ap, int); va_end(ap); }
+    return __real_open(path, flags, m);
+}
+extern "C" int __wrap_open64(const char *path, int flags, ...) {
+    int idx = sim_lookup(path);
+    if (S && idx >= 0 && !S->in_harness) { S->in_harness++; int fd = sim_open_idx(idx); S->in_harness--; return fd; }
+    mode_t m = 0; if (flags & O_CREAT) { va_list ap; va_start(ap, flags); m = (mode_t)va_arg(ap, int); va_end(ap); }
+    return __real_open(path, flags, m);
+}
+extern "C" FILE *__real_fdopen(int fd, const char *mode);
+extern "C" FILE *__wrap_fdopen(int fd, const char *mode) {
+    if (S && !S->in_harness && S->fdmap.count(fd)) { S->in_harness++; FILE *r = sim_stream_for(S->fdmap[fd]); S->in_harness--; return r; }
+    return __real_fdopen(fd, mode);
+}
+extern "C" ssize_t __real_read(int fd, void *buf, size_t n);
+extern "C" ssize_t __wrap_read(int fd, void *buf, size_t n) {
+    if (S && !S->in_harness && S->fdmap.count(fd)) { Cookie ck{ S->fdmap[fd] }; return rd_cb(&ck, (char *)buf, n); }
+    return __real_read(fd, buf, n);
+}
+extern "C" int __real_close(int fd);
+extern "C" int __wrap_close(int fd) {
+    if (S && !S->in_harness && S->fdmap.count(fd)) {
+        S->in_harness++; FileState &st = S->fs[S->fdmap[fd]]; st.closed = true; fflush(stdout); st.out_end = S->out.size(); S->fdmap.erase(fd); S->in_harness--;
+        return 0;
+    }
+    return __real_close(fd);
+}
+extern "C" int __real_posix_fadvise(int fd, off_t off, off_t len, int adv);
+extern "C" int __wrap_posix_fadvise(int fd, off_t off, off_t len, int adv) {
+    if (S && !S->in_harness && S->fdmap.count(fd)) return 0;
+    return __real_posix_fadvise(fd, off, len, adv);
 }
 
 // locale data loaded by glibc for setlocale() is cached by glibc for the life of the process: not the tool's allocation
@@ -248,13 +300,14 @@ extern "C" char *__wrap_strerror(int e) {
 extern "C" int __real_isatty(int fd);
 extern "C" int __wrap_isatty(int fd) {
     // where the user's stdout / stderr go is part of the environment: a terminal or not
+    if (S && S->fdmap.count(fd)) { errno = ENOTTY; return 0; }      // a simulated input file (possibly on descriptor 0)
     if (S && S->inv && (fd == 1 || fd == 2 || fd == 2001 || fd == 2002)) { int bit = (fd == 1 || fd == 2001) ? 1 : 2; if (S->inv->tty & bit) return 1; errno = ENOTTY; return 0; }
     return __real_isatty(fd);
 }
 extern "C" int __wrap_fileno(FILE *f) {
     if (S && f && f == S->cap_out) return 2001;
     if (S && f && f == S->cap_err) return 2002;
-    if (S && f) for (size_t i = 0; i < S->fs.size(); i++) if (S->fs[i].fp == f && !S->fs[i].closed) return 1000 + (int)i;
+    if (S && f) for (size_t i = 0; i < S->fs.size(); i++) if (S->fs[i].fp == f && !S->fs[i].closed) return S->fs[i].fd;
     return __real_fileno(f);
 }
 extern "C" int __wrap_fstat(int fd, struct stat *st) {
@@ -264,8 +317,8 @@ extern "C" int __wrap_fstat(int fd, struct stat *st) {
         st->st_blksize = 4096; st->st_nlink = 1;
         return 0;
     }
-    if (S && fd >= 1000 && fd < 1000 + (int)S->fs.size()) {
-        const SFile &f = *S->fs[fd - 1000].f;
+    if (S && S->fdmap.count(fd)) {
+        const SFile &f = *S->fs[S->fdmap[fd]].f;
         memset(st, 0, sizeof *st);
         st->st_mode = f.fkind ? (S_IFIFO | 0600) : (S_IFREG | 0644);
         st->st_size = f.fkind ? 0 : (off_t)f.data.size();
@@ -751,7 +804,8 @@ static Plan gen_plan(const string &cfg, uint64_t seed, long long index) {
         Op inv; inv.k = "INVOKE";
         { unsigned lc = (unsigned)sim_below(&w, 10); inv.loc = lc < 6 ? 0 : lc < 8 ? 1 : 2; }
         { sim_rng u = sim_derive(rs, 40 + (uint64_t)iv); if (sim_below(&u, 40) == 0) inv.usage = 1 + (int)sim_below(&u, 2); }
-        { sim_rng u = sim_derive(rs, 80 + (uint64_t)iv); if (sim_below(&u, 3) == 0) inv.tty = 1 + (int)sim_below(&u, 3); }     // one invocation in three writes to a terminal
+        { sim_rng u = sim_derive(rs, 80 + (uint64_t)iv); if (sim_below(&u, 3) == 0) inv.tty = 1 + (int)sim_below(&u, 3); }
+        { sim_rng u = sim_derive(rs, 120 + (uint64_t)iv); if (sim_below(&u, 12) == 0) inv.nostdin = 1; }                     // started from cron / a daemon: descriptor 0 is free     // one invocation in three writes to a terminal
         if (cfg == "outfault" && sim_below(&f, 100) < 70) {
             unsigned k = (unsigned)sim_below(&f, 3);
             inv.of_kind = k == 0 ? "short" : k == 1 ? "enospc" : "epipe"; inv.of_errno = k == 1 ? ENOSPC : EPIPE;
